@@ -320,6 +320,9 @@ where
             }
         }
         assert!(final_state.is_some());
+        // A state's shift/reduce conflicts are found in the arbitrary order of its (hashed) edges:
+        // list them by state and token so that the same grammar always gives the same table.
+        shift_reduce.sort_by_key(|&(tidx, _, stidx)| (stidx, tidx));
 
         let mut nt_depth = HashMap::new();
         let mut core_reduces = Vob::<u64>::from_elem_with_storage_type(
